@@ -6,11 +6,10 @@
 use std::fmt::{Display, Formatter};
 use std::io::{self, Result};
 use std::marker::PhantomData;
-use std::os::fd::IntoRawFd;
 use std::os::unix::io::{AsRawFd, RawFd};
 
 use vmm_sys_util::epoll::{ControlOperation, Epoll, EpollEvent, EventSet};
-use vmm_sys_util::event::EventNotifier;
+use vmm_sys_util::event::{EventConsumer, EventNotifier};
 
 use super::backend::VhostUserBackend;
 use super::vring::VringT;
@@ -63,6 +62,9 @@ pub struct VringEpollHandler<T: VhostUserBackend> {
     vrings: Vec<T::Vring>,
     thread_id: usize,
     exit_event_fd: Option<EventNotifier>,
+    // Owns the descriptor registered with `epoll` for the exit event, so that it is closed when
+    // the handler goes away.
+    _exit_event_consumer: Option<EventConsumer>,
     phantom: PhantomData<T::Bitmap>,
 }
 
@@ -88,18 +90,19 @@ where
         let epoll = Epoll::new().map_err(VringEpollError::EpollCreateFd)?;
         let exit_event_fd = backend.exit_event(thread_id);
 
-        let exit_event_fd = if let Some((consumer, notifier)) = exit_event_fd {
+        let (exit_event_consumer, exit_event_fd) = if let Some((consumer, notifier)) = exit_event_fd
+        {
             let id = backend.num_queues();
             epoll
                 .ctl(
                     ControlOperation::Add,
-                    consumer.into_raw_fd(),
+                    consumer.as_raw_fd(),
                     EpollEvent::new(EventSet::IN, id as u64),
                 )
                 .map_err(VringEpollError::RegisterExitEvent)?;
-            Some(notifier)
+            (Some(consumer), Some(notifier))
         } else {
-            None
+            (None, None)
         };
 
         Ok(VringEpollHandler {
@@ -108,6 +111,7 @@ where
             vrings,
             thread_id,
             exit_event_fd,
+            _exit_event_consumer: exit_event_consumer,
             phantom: PhantomData,
         })
     }
